@@ -223,6 +223,20 @@ def check_delivered(text, start, fault, stats, viols, light=False, chunk_rng=Non
         viols.append(Violation(PROP, 'position', f'column-out-of-range:{stmt_kind(lg.text)}',
                                {'fault': fault, 'column': col, 'line_length': len(line)}))
         return 'error-badcol'
+    # where (a block left open): "Missing end<kind> statement" must name the header of the block that IS open —
+    # the innermost one — not another block of the text. Judged only when RefLines' keyword scan agrees on the kind.
+    m_end = _re.match(r'^Missing end(function|if|while|for) statement$', err.error or '')
+    if m_end:
+        exp = reflines.missing_end_expectation(logicals)
+        if exp is not None and exp[0] == m_end.group(1):
+            stats.probes['missing_end_header_checked'] += 1
+            if exp[1] != rel:
+                viols.append(Violation(PROP, 'where', f'missing-end-names-another-block:{m_end.group(1)}',
+                                       {'fault': fault, 'blamed': rel, 'open_block_header': exp[1], 'error': err.error,
+                                        'line': line[:120]}))
+                return 'error-where'
+        else:
+            stats.probes['missing_end_scan_disagrees_on_kind'] += 1
     # where (token_corrupt outside literals)
     if fk == 'token_corrupt' and fault.get('outside') and fault.get('logical_number') is not None:
         if rel != fault['logical_number']:
